@@ -27,6 +27,10 @@ def run(ctx):
     from . import gram as _gram
     _gram.literal_text_premises(ctx, g, "C09-G")
     _gram.g18_message_not_key(ctx, g, "C09-G")
+    # (d) the edited file is the original text with the tokens spliced in, complete: C03's copy-through rules
+    from . import c03 as _c03
+    _run_as(_c03, _c03._Only(ctx, "C09-d", ("partial-write", "copy-shape", "scratch-write-census", "read-exact", "contents-unmodified", "contents-passed",
+                                              "writes-census", "copy-", "cursor", "tail", "anchor|")), ctx)
     tb, tt = c12.token_template(ctx, facts, P)
     if tt is not None:
         c, pieces = tt
